@@ -336,6 +336,13 @@ theorem toStr_eq {N k : Nat} {ws : Words k} {f : Spec.Bits} (h : Rep N k ws f) (
     (hcap : N ≤ cap) : toStr N ws zeroCh oneCh cap = .ok (Spec.toStr N f zeroCh oneCh) :=
   Members.toStr_eq h zeroCh oneCh cap hcap
 
+/-- `to_string` into a string of EXACTLY `Bits` characters of capacity (`to_string<Bits, CharT>`): every
+    `push_back` finds room, the result has `Bits` characters — the capacity is used up to the last unit and not
+    exceeded -/
+theorem toStr_exact_capacity {N k : Nat} {ws : Words k} {f : Spec.Bits} (h : Rep N k ws f) (zeroCh oneCh : Nat) :
+    ∃ str, toStr N ws zeroCh oneCh N = .ok str ∧ str.length = N ∧ str = Spec.toStr N f zeroCh oneCh :=
+  ⟨_, Members.toStr_eq h zeroCh oneCh N (Nat.le_refl N), by simp [Spec.toStr], rfl⟩
+
 /-- `to_string<Capacity, CharT>()` / `to_string<Capacity, CharT>(zero)`: the defaulted characters
     `CharT('0')`, `CharT('1')` are those of `std::bitset::to_string` -/
 theorem toStrD_eq {N k : Nat} {ws : Words k} {f : Spec.Bits} (h : Rep N k ws f) (zeroCh oneCh : Option Nat)
